@@ -70,6 +70,9 @@ var c07terms = []c07term{
 	{"abort-in-child-vm", "global (L, STARTED, CALL)\nspin := func() {\n  STARTED()\n  for {\n  }\n}\ntry {\n  return CALL(spin)\n} finally {\n  L(\"never\")\n}", true, "loop"},
 	{"error-in-child-vm", "global (L, CALL)\nbad := func(n) {\n  try {\n    return [1][n]\n  } finally {\n    L(\"child fin\")\n  }\n}\nreturn CALL(bad, 5)", true, ""},
 	{"panic-in-child-vm", "global (L, CALL, PANIC)\nreturn CALL(func() {\n  x := [1, 2, 3]\n  return PANIC()\n})", true, ""},
+	// many callback invocations on child VMs that end in an error / a recovered panic / succeed, in one run
+	{"many-failed-callbacks", "global (L, CALL, PANIC)\nn := 0\nfor i := 0; i < 150; i++ {\n  try {\n    CALL(func() {\n      if i % 3 == 0 {\n        throw error(\"cb\")\n      }\n      if i % 3 == 1 {\n        return [1][i + 5]\n      }\n      return PANIC()\n    })\n  } catch e {\n    n++\n  }\n}\nreturn n", true, ""},
+	{"many-nested-callbacks-then-error", "global (L, CALL)\nvar down\ndown = func(k) {\n  if k == 0 {\n    throw error(\"bottom\")\n  }\n  return CALL(down, k - 1)\n}\nfor i := 0; i < 30; i++ {\n  try {\n    down(4)\n  } catch e {\n  }\n}\nreturn down(3)", true, ""},
 	// the run dies inside a callee while the main function is inside a try statement
 	{"abort-in-callee-under-main-try", "global (L, STARTED)\nspin := func() {\n  STARTED()\n  for {\n  }\n}\ntry {\n  x := [1, 2, 3]\n  return spin()\n} catch e {\n  return \"main caught\"\n} finally {\n  L(\"never\")\n}", true, "loop"},
 	{"value-stack-overflow-under-main-try", "global L\nvar r\nr = func(a, b, c, d, e, f, g, h) {\n  x1 := a\n  x2 := b\n  return 1 + r(x1, x2, c, d, e, f, g, h)\n}\ntry {\n  return r(1, 2, 3, 4, 5, 6, 7, 8)\n} catch e {\n  return \"main caught\"\n}", true, ""},
